@@ -452,10 +452,22 @@ def enum_large(tier):
                          "units": None, "tol": None, "exp": -9}, "subs": [], "k": k, "vdims": None, "unit": "A/m",
                    "vals": "wide" if rep != "bin4" else "int", "seed": 7, "rep": rep, "extend_scalar": False,
                    "save_subregions": False, "ext": ".omf"}
+    # numbers of written values at, just below and just above multiples of the chunk size, for written widths 1, 2, 3
+    # (a chunk boundary inside a cell, at a cell boundary, at the very end)
+    boundary = [((100, 100, 10), 1, False), ((100, 100, 10), 3, False), ((50, 100, 10), 2, False),
+                ((100, 100, 10), 1, True), ((3, 41, 271), 3, False), ((2, 7, 2381), 3, False)]
+    if tier == "thorough":
+        boundary += [((200, 100, 10), 3, False), ((100, 100, 20), 1, True), ((99999, 1, 1), 1, False), ((1, 100001, 1), 1, False),
+                     ((50, 100, 20), 2, False), ((25, 100, 10), 4, False), ((7, 11, 433), 3, False)]
+    for i, (n, k, ext) in enumerate(boundary):
+        rep = ["bin8", "bin4"][i % 2]
+        yield {"g": {"p1": [0.0, 0.0, 0.0], "p2": [n[0] * 1e-9, n[1] * 2e-9, n[2] * 0.5e-9], "n": list(n), "dims": None,
+                     "units": None, "tol": None, "exp": -9}, "subs": [], "k": k, "vdims": None, "unit": "A/m",
+               "vals": "int", "seed": 11 + i, "rep": rep, "extend_scalar": ext, "save_subregions": False, "ext": ".ovf"}
 
 
 SUBS = [
-    Sub("roundtrip-large", check_roundtrip, enum=enum_large, nontrivial=nontrivial, enum_shards=lambda t: 3),
+    Sub("roundtrip-large", check_roundtrip, enum=enum_large, nontrivial=nontrivial, enum_shards=lambda t: 9 if t == "quick" else 16),
     Sub("roundtrip", check_roundtrip, field_case(), nontrivial=nontrivial, quick=500, thorough=4000),
     Sub("foreign", check_foreign, foreign_case(), nontrivial=nontrivial, quick=400, thorough=3000),
     Sub("truncation", check_truncation, enum=enum_truncation, enum_shards=lambda t: 4 if t == "quick" else 12),
